@@ -80,11 +80,16 @@ def triples(seed, eq_distinct=False, hashable=False):
     return out
 
 
-def unrename_for(alpha):
+def unrename_for(alpha, seen=None):
+    """s^-1 as seen by the catalogue's callbacks.  `seen` collects the arguments that are no alphabet value: incidental
+    values of an earlier stage (a count, a bool, a default None) that reach a callback of a later stage."""
+
     def u(x):
         for n, f in enumerate(alpha, 1):
             if x is f:
                 return n
+        if seen is not None and not isinstance(x, Sym) and len(seen) < 64:
+            seen.append(x)
         for n, f in enumerate(alpha, 1):
             if isinstance(f, Sym):
                 continue
@@ -156,14 +161,27 @@ def pipeline_cases(tier, seed):
 def run_one(stages, kind, tl, alpha):
     ents = L.entries()
     es = [ents[s] for s in stages]
-    R = L.run_pipeline(es, rename_tl(tl, alpha), (200.0,), alphabet=alpha, unrename=unrename_for(alpha), horizon=700.0, source_kind=kind)
+    seen = []
+    R = L.run_pipeline(es, rename_tl(tl, alpha), (200.0,), alphabet=alpha, unrename=unrename_for(alpha, seen if alpha is ORD else None), horizon=700.0, source_kind=kind)
+    R.seen = seen
     return R
+
+
+NONVERDICT = {"harness", "collision"}
+
+
+def collides(seen, alpha):
+    """An incidental value that a callback inspected in the ordinary run is indistinguishable (type and ==) from a renamed
+    element: the callback would legitimately treat it as that element, so the metamorphic relation does not apply."""
+    return any(type(x) is type(f) and x == f for x in seen for f in alpha)
 
 
 def compare(stages, kind, tl, alpha, ordinary=None):
     """-> (problem | None, renamed view, ordinary run, nontrivial)"""
     if ordinary is None:
         ordinary = run_one(stages, kind, tl, ORD)
+    if collides(ordinary.seen, alpha):
+        return ("collision", "incidental value equals a renamed element"), None, ordinary, False
     Rf = run_one(stages, kind, tl, alpha)
     exp = ordinary.subs[0].view(leaf=leaf_for(alpha))
     act = Rf.subs[0].view()
@@ -200,7 +218,7 @@ def culprits(stages, kind, tl, alpha):
                 a = list(ORD)
                 a[pos] = f
                 p, _, _, _ = compare(stages, kind, tl2, tuple(a))
-                if p is not None and p[0] != "harness":
+                if p is not None and p[0] not in NONVERDICT:
                     hit = True
                     break
             if hit:
@@ -229,7 +247,7 @@ def fails_alone(sid, seed):
             ordinary = None
             for alpha in triples(seed, eq, hs):
                 p, _, ordinary, _ = compare((sid,), "cold", tl, alpha, ordinary)
-                if p is not None and p[0] != "harness":
+                if p is not None and p[0] not in NONVERDICT:
                     sig = f"{sid}|{culprits((sid,), 'cold', tl, alpha)}|{p[0]}"
                     break
             if sig:
@@ -377,6 +395,9 @@ def shard(part: core.Part, shard_i, nshards, tier, seed, deadline):
             ordinary = None
             for alpha in triples(seed, eq, hs):
                 p, act, ordinary, nontrivial = compare(stages, kind, tl, alpha, ordinary)
+                if p is not None and p[0] == "collision":
+                    part.count("skipped_incidental_value_equals_renamed_element")
+                    continue
                 part.case((stages, kind, tn, repr(alpha)), nontrivial, outcome=repr(act),
                           sample={"stages": list(stages), "kind": kind, "timeline": tn, "renaming": repr(alpha), "observed": L.show(act)})
                 if p is None:
@@ -419,6 +440,9 @@ def run(ctx: core.Ctx):
     ctx.assumptions = [
         "VirtualTimeScheduler queue discipline (checked separately by C28/C29)",
         "ordinary elements are opaque truthy objects; callbacks of the catalogue look at elements only through the inverse renaming",
+        "depth 2: a (timeline, renaming) is not judged when, in the ordinary run, a callback of the later stage inspected an incidental value "
+        "of the earlier stage (a count, a bool, a default None) that equals a renamed element by type and == - the callback then "
+        "legitimately treats it as that element (counter skipped_incidental_value_equals_renamed_element)",
         "numeric (sum/min of raw elements) and stringifying (to_marbles) instances are outside the metamorphic relation and not run",
         "ReplaySubject is driven with its default scheduler; no window, so no clock reading takes part in a decision",
     ]
@@ -446,8 +470,9 @@ def replay(case):
         tl = tls()[case["timeline_name"]]
         p, act, ordinary, _ = compare(stages, case["kind"], tl, alpha)
         print("ordinary run :", L.show(ordinary.subs[0].view(), 1500))
-        print("renamed run  :", L.show(act, 1500))
-        if p is None or p[0] == "harness":
+        print("renamed run  :", L.show(act, 1500) if act is not None else None)
+        if p is None or p[0] in NONVERDICT:
+            print("no verdict:", p)
             return []
         return [{"signature": signature(stages, case["kind"], tl, alpha, p[0], seed), "what": p[1], "detail": None}]
     hist = tuple(tuple(e) for e in case["history"])
